@@ -27,7 +27,17 @@ func init() {
 		spec{area: "Analysis", coq: "shingle_filler_end", file: "analysis/token/shingle.go", kind: "fieldlit", a: "Token", b: "End"},
 		spec{area: "Analysis", coq: "shingle_filler_incr", file: "analysis/token/shingle.go", kind: "fieldlit", a: "Token", b: "PositionIncr"},
 	)
-	sections = append(sections, analysisTokenTypes)
+	specs = append(specs,
+		// analysis/lang/en/possessive_filter_en.go: the three apostrophes
+		spec{area: "Analysis", coq: "en_right_single_quote", file: "analysis/lang/en/possessive_filter_en.go", kind: "const", a: "rightSingleQuotationMark"},
+		spec{area: "Analysis", coq: "en_apostrophe", file: "analysis/lang/en/possessive_filter_en.go", kind: "const", a: "apostrophe"},
+		spec{area: "Analysis", coq: "en_fullwidth_apostrophe", file: "analysis/lang/en/possessive_filter_en.go", kind: "const", a: "fullWidthApostrophe"},
+		// analysis/token/dict.go, camelcase_parser.go, cjk_bigram.go: increments of the emitted tokens
+		spec{area: "Analysis", coq: "dict_sub_incr", file: "analysis/token/dict.go", kind: "fieldlit", a: "Token", b: "PositionIncr"},
+		spec{area: "Analysis", coq: "camel_tok_incr", file: "analysis/token/camelcase_parser.go", kind: "fieldlit", a: "Token", b: "PositionIncr"},
+		spec{area: "Analysis", coq: "bigram_piece_incr", file: "analysis/lang/cjk/cjk_bigram.go", kind: "fieldlit", a: "Token", b: "PositionIncr"},
+	)
+	sections = append(sections, analysisTokenTypes, analysisKanaTables)
 }
 
 // analysisTokenTypes evaluates the iota enumeration of analysis.TokenType (analysis/type.go).
@@ -83,6 +93,45 @@ func analysisTokenTypes(root string) (string, string, []string) {
 			continue
 		}
 		fmt.Fprintf(&sb, "Definition %s : Z := %d. (* analysis/type.go: TokenType %s *)\n", want[n], v, n)
+	}
+	return area, sb.String(), errs
+}
+
+// analysisKanaTables emits the rune tables of analysis/lang/cjk/cjk_width.go as Coq lists.
+func analysisKanaTables(root string) (string, string, []string) {
+	const area = "Analysis"
+	fi, err := load(root, "analysis/lang/cjk/cjk_width.go")
+	if err != nil {
+		return area, "", []string{err.Error()}
+	}
+	var sb strings.Builder
+	var errs []string
+	for _, it := range []struct{ coq, goName string }{{"cjk_kana_norm", "kanaNorm"}, {"cjk_combine_voiced", "kanaCombineVoiced"}, {"cjk_combine_half_voiced", "kanaCombineHalfVoiced"}} {
+		e, ok := fi.vars[it.goName]
+		if !ok {
+			errs = append(errs, fmt.Sprintf("%s: var %s not found in analysis/lang/cjk/cjk_width.go", it.coq, it.goName))
+			continue
+		}
+		cl, ok := e.(*ast.CompositeLit)
+		if !ok {
+			errs = append(errs, fmt.Sprintf("%s: var %s is not a composite literal", it.coq, it.goName))
+			continue
+		}
+		vals := make([]string, 0, len(cl.Elts))
+		bad := false
+		for _, el := range cl.Elts {
+			v, err := eval(fi, el)
+			if err != nil || !v.IsInt() {
+				errs = append(errs, fmt.Sprintf("%s: element of %s is not an integer constant", it.coq, it.goName))
+				bad = true
+				break
+			}
+			vals = append(vals, coqZ(v))
+		}
+		if bad {
+			continue
+		}
+		fmt.Fprintf(&sb, "Definition %s : list Z := [%s]. (* analysis/lang/cjk/cjk_width.go: var %s *)\n", it.coq, strings.Join(vals, "; "), it.goName)
 	}
 	return area, sb.String(), errs
 }
